@@ -13,8 +13,8 @@ ANCHORS = [("qartod.py", "location_test"), ("qartod.py", "gross_range_test"), ("
            ("qartod.py", "spike_test"), ("qartod.py", "rate_of_change_test"), ("qartod.py", "flat_line_test"),
            ("qartod.py", "attenuated_signal_test"), ("qartod.py", "density_inversion_test"), ("argo.py", "speed_test"),
            ("axds.py", "valid_range_test")]
-RULE = ("every test that handles missing data x all 2^n placements of missing values in the data for n<=6 (7 thorough), "
-        "jointly in data and depth (4^n) for n<=4 (5), all 4^n lon/lat placements for n<=4 (5) x missing markers "
+RULE = ("every test that handles missing data x all 2^n placements of missing values in the data for n<=6 (9 thorough), "
+        "jointly in data and depth (4^n) for n<=4 (6), all 4^n lon/lat placements for n<=4 (6) x missing markers "
         "{NaN in ndarray, None in list, masked element over NaN, masked element over a finite GOOD-looking value} x a "
         "parameter grid per test that makes GOOD, SUSPECT and FAIL reachable at the present neighbours (for "
         "climatology every member shape: absolute / month / week / dayofyear / quarter x +-zspan x +-fspan x 1-2 "
@@ -109,7 +109,7 @@ def run(ctx) -> None:
     rng = ctx.rng
     ctx.require("c02.calls", 3000)
     ctx.require("c02.indices_judged", 10000)
-    nmax = ctx.pick(6, 7)
+    nmax = ctx.pick(6, 9)
     i = 0
     # ---- single-input tests: all 2^n placements x markers
     for n in range(0, nmax + 1):
@@ -157,7 +157,7 @@ def run(ctx) -> None:
     ctx.exhaustive.append(f"all 2^n data-missing placements for n<=7 x 4 markers x 10 single-input modes + 22 climatology member shapes (n<=3: all shapes)"
                           if ctx.thorough else "all 2^n data-missing placements for n<=6 x 4 markers x 10 single-input modes + climatology member shapes")
     # ---- two-input tests: all 4^n joint placements
-    n2 = ctx.pick(4, 5)
+    n2 = ctx.pick(4, 6)
     for n in range(0, n2 + 1):
         for pl in itertools.product((0, 1, 2, 3), repeat=n):
             i += 1
